@@ -18,11 +18,17 @@ type Unit struct {
 	Prop     string
 	Name     string
 	Thorough bool // only in the thorough tier
-	Shards   int  // >1: run as that many worker processes, each taking a share of the depth-1 subtrees
+	Shards   int  // >1: in the thorough tier run as that many worker processes, each taking a share of the root execution's alternatives
 	Run      func(c *Ctx)
 }
 
 var units []*Unit
+
+// registerSharded is register for a unit whose (single) exploration is split over n processes in the thorough tier.
+func registerSharded(prop, name string, thorough bool, n int, run func(c *Ctx)) {
+	register(prop, name, thorough, run)
+	units[len(units)-1].Shards = n
+}
 
 func register(prop, name string, thorough bool, run func(c *Ctx)) {
 	name = strings.ReplaceAll(name, " ", "_") // unit names are whitespace-separated fields of the listing
